@@ -149,7 +149,7 @@ class UlMalformed(Stream):
         return L.harness_ok(c, o)
 
 
-class C06(Check):
+class C06(L.ShrinkMixin, Check):
     pid = "C06"
     prop_files = ["Properties/C06.v"]
     streams = [UlHistories(), UlMalformed()]
